@@ -28,6 +28,10 @@ func c03RunShape(nInst int, shared, composite bool) {
 	}
 	m := int(vConcretize(vNondetInt("m", 0, 3)))
 	discard := vNondetBool("discardOverflow")
+	if c03Deep {
+		vAssume(k == 1 && m == 3 && !discard)
+		vFreezeClock()
+	}
 	if composite {
 		vAssume(m >= 2 && !discard) // ammo binding or equal to the tokens; nothing discarded
 		vFreezeClock()
@@ -99,6 +103,16 @@ func HarnessC03PerInstance2() { c03Run(2, false) }
 func HarnessC03Shared3()      { c03Run(3, true) }
 
 func HarnessC03SharedComposite2() { c03RunShape(2, true, true) }
+
+// one token, three items, two instances, three scheduling delays: deep enough for an instance to
+// look at the shared profile in the middle of the other one's failing Next()
+func HarnessC03Shared2Deep() {
+	c03Deep = true
+	defer func() { c03Deep = false }()
+	c03RunShape(2, true, false)
+}
+
+var c03Deep bool
 
 // A panicking Shoot still releases its ammo and turns into an instance error.
 func HarnessC03ShootPanic() {
